@@ -5,7 +5,7 @@ import numpy as np
 from hypothesis import strategies as st
 
 from ..core import Clause, Discard, call, require
-from ..strategies import threshold_configs, with_config, bank_specs, floats
+from ..strategies import tame_threshold_case, threshold_configs, with_config, bank_specs, floats
 from .c05 import _thr, apply_warmup, bank_labels, build_or_discard, narrowed_specs, warmups
 
 PROPERTY = "C07"
@@ -165,7 +165,7 @@ def _cases():
         "mult": st.one_of(floats(1.0, 4.0), floats(1.0, 1.2)),
         "warmup": warmups(),
         "config": threshold_configs(),
-    })
+    }).map(tame_threshold_case)
 
 
 def clauses(tier):
